@@ -67,7 +67,7 @@ type scenario struct {
 	srcLocal  bool
 	dstLocal  bool
 	peering   bool // both info fields carry the Peer flag; the local hop is one of the two peering hops
-	validated int // absolute index of the hop validated last in this AS
+	validated int  // absolute index of the hop validated last in this AS
 }
 
 type builtPath struct {
